@@ -8,7 +8,9 @@ from common import *
 from shapes import *
 import c01, c06
 
-def render(it, v): return list(typst_format(it, v).ch)
+def render(it, v):
+    it.strict_debug = True
+    return list(typst_format(it, v).ch)
 
 def ws(c): return models_str.char_pred('is_whitespace', c)
 
@@ -16,7 +18,10 @@ def names_for(it, ctx, fmt, specs):
     ids = {}
     for s in specs: ids.update(sym_ids(s))
     fake = tuple(('sym', i, n) for i, n in ids.items())
-    return c01.make_names(it, ctx, fmt, fake)
+    names = c01.make_names(it, ctx, fmt, fake)
+    for cs in names.values():
+        for c in cs: ctx.assume(models_str.char_pred('debug_plain', c))     # std's `{:?}` escapes the others (outside the code under test)
+    return names
 
 def path_layout(engine, ctx, params):
     it = engine.new_interp(ctx, step_limit=600000)
@@ -92,9 +97,10 @@ def main(tier, seed):
     from framework import Runner, Query
     import itertools
     R = Runner('C16', tier, seed); R.setup()
+    R.blocks = [(0, 0x24F)] if tier == 'quick' else models_str.STD_BLOCKS
     quick = tier == 'quick'
     R.assumptions += ['names: 1 symbolic well-formed char (ASCII-format notion of well-formed); shapes of shapes.py; pairs = all pairs of depth-1 terms over the same two names plus sentence/task pairs differing in one item',
-                      'unordered components are rendered in insertion order']
+                      'unordered components are rendered in insertion order', 'name chars range over the code-point blocks given per query and are those std prints unescaped under {:?} (the Typst formatter quotes names with Debug formatting)']
     shapes = c01.shape_list(tier)
     if quick: shapes = [x for x in shapes if not x[0].startswith(('sent/', 'task/'))] + [x for x in shapes if x[0].startswith(('sent/', 'task/'))][::4]
     R.run_query(Query('layout', 'c16', 'path_layout', [dict(name=nm, spec=sp) for nm, sp in shapes], '%d value shapes' % len(shapes)), confirm, key_of)
